@@ -9,6 +9,7 @@ import (
 	"encoding/hex"
 	"encoding/json"
 	"fmt"
+	"math"
 	"os"
 	"reflect"
 	"runtime"
@@ -103,6 +104,9 @@ func Int() int { return int(pop("int")) }
 // Int64 is an arbitrary int64.
 func Int64() int64 { return pop("int64") }
 
+// Float64 is an arbitrary float64 (every bit pattern: NaNs, infinities, zeros, subnormals).
+func Float64() float64 { return math.Float64frombits(uint64(pop("float"))) }
+
 // Bool is an arbitrary bool.
 func Bool() bool { return pop("bool") != 0 }
 
@@ -168,6 +172,8 @@ func Note(k string, v interface{}) {
 		s = fmt.Sprint(x)
 	case bool:
 		s = fmt.Sprint(x)
+	case float64:
+		s = fmt.Sprint(math.Float64bits(x))
 	case error:
 		if x == nil {
 			s = "<nil>"
